@@ -6,6 +6,7 @@
 import random
 
 M64 = (1 << 64) - 1
+BLK_ARGS = False      # block arguments: enabled once fixes/C20-11.patch (by-value block arguments in mir2c) is in /repo
 INT_TYPES = ['i8', 'u8', 'i16', 'u16', 'i32', 'u32', 'i64', 'u64']
 SIZE = {'i8': 1, 'u8': 1, 'i16': 2, 'u16': 2, 'i32': 4, 'u32': 4, 'i64': 8, 'u64': 8, 'f': 4, 'd': 8, 'p': 8}
 
@@ -311,6 +312,116 @@ class Gen:
         self.emit('add %s, %s, 1' % (i, i))
         self.emit('blt %s, %s, %d' % (l, i, r.randint(1, 4)))
 
+    def alloca_block(self, regs):
+        r = self.rng
+        n = r.choice([8, 16, 24, 40, 100, 4096])
+        scoped = r.random() < 0.4
+        if scoped:
+            self.emit('bstart p2')
+        if r.random() < 0.5:
+            self.emit('alloca p1, %d' % n)
+        else:
+            self.emit('mov t8, %d' % n)
+            self.emit('alloca p1, t8')
+        self.emit('and t9, p1, 15')       # alignment of the target ABI
+        self.acc('t9')
+        for _ in range(r.randint(1, 3)):
+            ty = r.choice(INT_TYPES)
+            off = r.randrange(0, n - SIZE[ty] + 1)
+            self.emit('mov %s:%d(p1), %s' % (ty, off, self.int_src(regs)))
+            self.emit('mov t9, %s:%d(p1)' % (ty, off))
+            self.acc('t9')
+        if scoped:
+            self.emit('bend p2')
+
+    def addr_block(self, regs):
+        r = self.rng
+        self.emit('mov v0, %s' % r.choice(regs))
+        k = r.random()
+        if k < 0.35:
+            self.emit('addr p1, v0')
+            self.emit('mov t9, i64:(p1)')
+            self.acc('t9')
+            ty = r.choice(INT_TYPES)
+            self.emit('mov %s:(p1), %s' % (ty, self.int_src(regs)))      # a store through the pointer changes the variable
+            self.acc('v0')
+        elif k < 0.75:
+            op, ty = r.choice([('addr8', 'i8'), ('addr8', 'u8'), ('addr16', 'i16'), ('addr16', 'u16'), ('addr32', 'i32'), ('addr32', 'u32')])
+            self.emit('%s p1, v0' % op)
+            self.emit('mov t9, %s:(p1)' % ty)
+            self.acc('t9')
+            self.emit('mov %s:(p1), %s' % (ty, self.int_src(regs)))
+            self.acc('v0')
+        else:
+            self.emit('and t9, v0, 1048575')
+            self.emit('i2d dv, t9')
+            self.emit('addr p1, dv')
+            self.emit('mov t9, i64:(p1)')       # the bits of the double
+            self.acc('t9')
+            self.emit('dmov d:(p1), 2.5')
+            self.emit('dlt t9, dv, 3.0')
+            self.acc('t9')
+
+    def laddr_block(self, regs):
+        r = self.rng
+        l1, l2, l3 = self.lab('A'), self.lab('A'), self.lab('A')
+        self.emit('laddr t8, %s' % l1)
+        self.emit('and t9, %s, 1' % r.choice(regs))
+        self.emit('bf %s, t9' % l3)
+        self.emit('laddr t8, %s' % l2)
+        self.lines.append('%s:' % l3)
+        if r.random() < 0.5:                      # the address travels through memory
+            self.emit('mov p0, wbuf')
+            self.emit('mov i64:8(p0), t8')
+            self.emit('mov t8, 0')
+            self.emit('jmpi i64:8(p0)')
+        else:
+            self.emit('jmpi t8')
+        self.emit('add acc, acc, 1000')           # never executed
+        self.lines.append('%s:' % l1)
+        self.emit('add acc, acc, 11')
+        self.lines.append('%s:' % l2)
+        self.emit('add acc, acc, 5')
+        if r.random() < 0.5:                      # leave no code address behind in the dumped scratch area
+            pass
+        self.emit('mov p0, wbuf')
+        self.emit('mov i64:8(p0), 0')
+
+    def vararg_block(self, regs):
+        """call of the variadic MIR function hva: per argument a 2-bit tag (0 int, 1 double, 3 long double)"""
+        r = self.rng
+        n = r.randint(0, 6)
+        tags, args = 0, []
+        self.emit('and t8, %s, 65535' % r.choice(regs))
+        self.emit('i2d d2, t8')
+        self.emit('i2ld l1, t8')
+        for i in range(n):
+            k = r.choice([0, 0, 1, 3])
+            tags |= k << (2 * i)
+            if k == 0:
+                args.append(self.int_src(regs))
+            elif k == 1:
+                args.append(r.choice(['d2', '3.0', '1024.0', '-7.0']))
+            else:
+                args.append(r.choice(['l1', '5.0L', '-3.0L']))
+        self.emit('call p_hva, hva, t9, %d, %d%s' % (n, tags, ''.join(', %s' % a for a in args)))
+        self.acc('t9')
+
+    def blk_block(self, regs):
+        """block arguments (by value): to a MIR function that also writes to its copy, and to a variadic one"""
+        r = self.rng
+        a, b = r.choice(regs), r.choice(regs)
+        self.emit('alloca p1, 16')
+        self.emit('mov i64:(p1), %s' % a)
+        self.emit('mov i64:8(p1), %s' % b)
+        if r.random() < 0.5:
+            self.emit('call p_hblk, hblk, t9, %s, blk:16(p1)' % self.int_src(regs))
+        else:
+            self.emit('call p_hvblk, hvblk, t9, 1, blk:16(p1)')
+        self.acc('t9')
+        self.emit('mov t9, i64:(p1)')             # the caller's block is unchanged
+        self.acc('t9')
+
     def block(self, regs, depth, n, top=False):
         r = self.rng
         for _ in range(n):
@@ -329,10 +440,20 @@ class Gen:
                 self.call_block(regs)
             elif k < 0.78:
                 self.branch_block(regs, depth)
-            elif k < 0.86:
+            elif k < 0.84:
                 self.ovf_block(regs)
-            elif k < 0.93:
+            elif k < 0.88:
                 self.switch_block(regs)
+            elif k < 0.90:
+                self.alloca_block(regs)
+            elif k < 0.92:
+                self.addr_block(regs)
+            elif k < 0.935:
+                self.laddr_block(regs)
+            elif k < 0.955:
+                self.vararg_block(regs)
+            elif k < 0.965 and self.features.get('blk', BLK_ARGS):
+                self.blk_block(regs)
             elif depth > 0:
                 self.loop_block(regs, depth)
             else:
@@ -349,6 +470,10 @@ class Gen:
         self.emit('proto f, f:x, f:y', 'p_extf')
         self.emit('proto i64, i64:addr, i64:len', 'p_extp')
         self.emit('proto i64, i64:n, ...', 'p_extv')
+        self.emit('proto i64, i64:n, i64:tags, ...', 'p_hva')
+        if self.features.get('blk', BLK_ARGS):
+            self.emit('proto i64, i64:n, blk:16(s)', 'p_hblk')
+            self.emit('proto i64, i64:n, ...', 'p_hvblk')
         pt = [r.choice(INT_TYPES) for _ in range(4)]
         self.emit('proto i64, %s:a, %s:b, %s:c, %s:d' % tuple(pt), 'p_h1')
         self.emit('proto d, d:x, f:y', 'p_h2')
@@ -380,18 +505,73 @@ class Gen:
         self.emit('dadd z, z, 1.0')
         self.emit('ret z')
         self.emit('endfunc')
+        # variadic MIR function: va_start / va_arg of i64, d and ld arguments / va_end
+        self.emit('func i64, i64:n, i64:tags, ...', 'hva')
+        self.emit('local i64:va, i64:s, i64:i, i64:p, i64:t, d:x, ld:l')
+        self.emit('alloca va, 32')
+        self.emit('va_start va')
+        self.emit('mov s, 0')
+        self.emit('mov i, 0')
+        self.lines.append('hva_lp:')
+        self.emit('bge hva_fin, i, n')
+        self.emit('and t, tags, 3')
+        self.emit('ursh tags, tags, 2')
+        self.emit('beq hva_d, t, 1')
+        self.emit('beq hva_ld, t, 3')
+        self.emit('va_arg p, va, i64:0')
+        self.emit('add s, s, i64:(p)')
+        self.emit('jmp hva_nx')
+        self.lines.append('hva_d:')
+        self.emit('va_arg p, va, d:0')
+        self.emit('dmov x, d:(p)')
+        self.emit('d2i t, x')
+        self.emit('add s, s, t')
+        self.emit('jmp hva_nx')
+        self.lines.append('hva_ld:')
+        self.emit('va_arg p, va, ld:0')
+        self.emit('ldmov l, ld:(p)')
+        self.emit('ld2i t, l')
+        self.emit('add s, s, t')
+        self.lines.append('hva_nx:')
+        self.emit('mul s, s, 3')
+        self.emit('add i, i, 1')
+        self.emit('jmp hva_lp')
+        self.lines.append('hva_fin:')
+        self.emit('va_end va')
+        self.emit('ret s')
+        self.emit('endfunc')
+        if self.features.get('blk', BLK_ARGS):
+            self.emit('func i64, i64:n, blk:16(s)', 'hblk')
+            self.emit('local i64:t')
+            self.emit('add t, i64:(s), i64:8(s)')
+            self.emit('mov i64:(s), 99')
+            self.emit('add t, t, n')
+            self.emit('add t, t, i64:(s)')
+            self.emit('ret t')
+            self.emit('endfunc')
+            self.emit('func i64, i64:n, ...', 'hvblk')
+            self.emit('local i64:va, i64:a, i64:t')
+            self.emit('alloca va, 32')
+            self.emit('alloca a, 16')
+            self.emit('va_start va')
+            self.emit('va_block_arg a, va, 16, 0')
+            self.emit('add t, i64:(a), i64:8(a)')
+            self.emit('va_end va')
+            self.emit('ret t')
+            self.emit('endfunc')
         self.emit('func i64, i64:a, i64:b', 'entry')
-        self.emit('local i64:acc, i64:t0, i64:t1, i64:t2, i64:t3, i64:t7, i64:t8, i64:t9, i64:p0, i64:i1, i64:i2, d:d0, d:d1, d:d2, f:f0, f:f1, ld:l0, ld:l1')
+        self.emit('local i64:acc, i64:t0, i64:t1, i64:t2, i64:t3, i64:t7, i64:t8, i64:t9, i64:p0, i64:p1, i64:p2, i64:v0, i64:i1, i64:i2, d:d0, d:d1, d:d2, d:dv, f:f0, f:f1, ld:l0, ld:l1')
         self.emit('mov acc, 7')
         self.emit('mov t0, a')
         self.emit('mov t1, b')
         self.emit('add t2, a, b')
         self.emit('xor t3, a, 305419896')
-        for reg in ('t7', 't8', 't9', 'p0', 'i1', 'i2'):     # every register is defined: any sub-sequence of the body stays well-defined
+        for reg in ('t7', 't8', 't9', 'p0', 'p1', 'p2', 'v0', 'i1', 'i2'):     # every register is defined: any sub-sequence of the body stays well-defined
             self.emit('mov %s, 0' % reg)
         self.emit('dmov d0, 1.0')
         self.emit('dmov d1, 2.0')
         self.emit('dmov d2, 0.5')
+        self.emit('dmov dv, 0.0')
         self.emit('fmov f0, 1.0f')
         self.emit('fmov f1, 2.0f')
         self.emit('ldmov l0, 1.0L')
